@@ -184,7 +184,9 @@ class Model:
         pats = self.all_ignores()
         while True:
             for lvl, pat in pats:
-                r = self.ev(pat, pos, {}, lvl, noskip=True)
+                # literals inside ignore patterns are literals of the grammar too:
+                # each is followed by a (nested) skip of its own
+                r = self.ev(pat, pos, {}, lvl)
                 if r is not FAIL and r[1] > pos:
                     pos = r[1]
                     break
